@@ -93,6 +93,8 @@ CHECKS = {
                   "replay": "interpreted", "max-paths": 3000000,
                   "covers": ["done", "rejected", "leader-ack", "all-ack"],
                   "targets": ["partition).messageProcessingLoop", "partition).processPendingMessage", "partition).commitLoop", "partition).sendAck", "partition).sendTooLargeNack"]},
+                 {"name": "VerifC04MinISRTravels", "replay": "interpreted", "covers": ["done", "stream-says-2", "stream-says-3", "below-minimum", "second-stream", "pause-resume", "restored-from-snapshot"],
+                  "targets": ["Server).newPartition", "StreamsConfig).ApplyOverrides", "Server).Restore"]},
                  # the real data path (replicators, follower handlers) with a late replication request from another
                  # leader epoch: the C02 pipeline harness at a smaller bound; its oracle includes "an ALL-policy ack is
                  # only out once every in-sync replica holds the message"
